@@ -23,22 +23,53 @@ class ProbeSystem(c02.MPSSystem):
         pass
 
 
-def probe_space(name, worlds, depth, probe):
-    system = ProbeSystem(probe)
+def _build_prefixed(system):
+    def build(desc):
+        w = c02.build_world(desc)
+        for label in desc.get('prefix', []):
+            lt = tuple(label)
+            match = [(l, ok, fn) for (l, ok, fn) in system.enabled(w) if tuple(l) == lt]
+            match[0][2](w, None)
+        return w
+    return build
+
+
+def probe_space(name, worlds, depth, probe, system=None):
+    """BFS to `depth` from every world; sharded by first transition so that the 16 workers share the work."""
+    system = system or ProbeSystem(probe)
+    build = _build_prefixed(system)
 
     def run_chunk(chunk, seed):
         desc, dep = chunk
-        return explore_from(system, desc, c02.build_world, dep, seed, name)
+        try:
+            build(desc)
+        except Exception:  # noqa: BLE001 - a failing first operation is reported by the root chunk of the world
+            from mc.core import ChunkResult
+            r = ChunkResult()
+            r.extra['prefix_not_buildable'] += 1
+            return r
+        return explore_from(system, desc, build, dep, seed, name)
 
     def sig(case):
-        return case['init']['world'] + ':' + '>'.join(str(o[0]) for o in case['ops'])
+        return case['init']['world'] + ':' + '>'.join(str(o[0]) for o in case['init'].get('prefix', []) + case['ops'])
 
-    sp = Space(name, [({'world': w}, depth) for w in worlds], run_chunk=run_chunk, sig=sig,
+    chunks = []
+    for wn in worlds:
+        if depth <= 2:
+            chunks.append(({'world': wn}, depth))
+            continue
+        w = c02.build_world({'world': wn})
+        chunks.append(({'world': wn}, 1))
+        for (label, ok, fn) in system.enabled(w):
+            if ok:
+                chunks.append(({'world': wn, 'prefix': [list(label)]}, depth - 1))
+    sp = Space(name, chunks, run_chunk=run_chunk, sig=sig,
                bounds={'worlds': list(worlds), 'depth': depth, 'menu': 'the 28-operation menu of C02 (props/c02.py)',
                        'probe': 'oracle of this property evaluated on deep copies of the objects of every reached state'})
     sp.history_system = system
+    sp.history_build = build
     return sp
 
 
 def replay(space, case, seed):
-    return replay_history(space.history_system, case['init'], c02.build_world, case['ops'], seed, space.name)
+    return replay_history(space.history_system, case['init'], space.history_build, case['ops'], seed, space.name)
